@@ -212,7 +212,7 @@ BUNDLES = {
     'sessions': 'exclusive session slots (C14: R-CAS, R-TOK)',
     'value_words': 'immutable values swapped with one store (C15: R-IMM, R-ONE)',
     'reclamation': 'who may free, unlink implies retire (C07: R-WMF, R-RET)',
-    'structure': 'structural stores under the guarding lock, link / parent pairing, split sibling published last (C08: R-MUL, R-LINK; C06: R-SPL)',
+    'structure': 'structural stores under the guarding lock, link / parent pairing, split sibling published last, a deleted border retired or left without sibling links (C08: R-MUL, R-LINK, R-SIB; C06: R-SPL)',
     'writers_revalidate': 'writers act on what they re-validated under the lock (C01: R-WUL)',
     'names': 'name-based entry points resolve the storage first (C13: R-STG)',
     'gc_safety': 'epoch-based reclamation: who may free, retire tags, GC slack, epoch gating, session publication (C07: R-WMF, R-RET, R-GCG, R-MIN, R-ADV, R-PUB, R-FRESH, R-LVE)',
